@@ -51,6 +51,38 @@ SPECS = {
 ''' % KEY),
 }
 
+LINK = '''
+pub open spec fn uniform<T>(vars: Seq<Vec<T>>) -> bool { forall|i: int| 0 <= i < vars.len() ==> (#[trigger] vars[i])@.len() == vars[0]@.len() }
+impl FromSpecImpl<MismatchedSlices> for BulkArgError {
+    open spec fn obeys_from_spec() -> bool { true }
+    open spec fn from_spec(e: MismatchedSlices) -> Self { BulkArgError::MismatchedSlices(e) }
+}
+impl From<MismatchedSlices> for BulkArgError { fn from(e: MismatchedSlices) -> (r: Self) { BulkArgError::MismatchedSlices(e) } }
+// =================== link to the opaque stand-in of the other units ===================
+/// what is assumed of `VarMap::iter` (not under contract): it yields every assigned (variable, index) pair exactly once
+pub open spec fn enumerates(e: Seq<(Var, usize)>, m: VarMap) -> bool {
+    &&& e.len() == m.len_spec()
+    &&& forall|k: int| 0 <= k < e.len() ==> m.idx((#[trigger] e[k]).0) == Some(e[k].1)
+    &&& forall|i: int, j: int| 0 <= i < j < e.len() ==> (#[trigger] e[i]).0 != (#[trigger] e[j]).0
+}
+/// the well-formedness the units shape / solver / vm assume of their stand-in's `entries()`
+pub open spec fn entries_wf(e: Seq<(Var, usize)>) -> bool {
+    &&& forall|i: int| 0 <= i < e.len() ==> (#[trigger] e[i]).1 < e.len()
+    &&& forall|i: int, j: int| 0 <= i < j < e.len() ==> (#[trigger] e[i]).1 != (#[trigger] e[j]).1
+    &&& forall|i: int, j: int| 0 <= i < j < e.len() ==> (#[trigger] e[i]).0 != (#[trigger] e[j]).0
+}
+/// ... follows from the invariant that `insert` maintains, for any enumeration of the map
+pub proof fn lemma_entries_wf(e: Seq<(Var, usize)>, m: VarMap)
+    requires m.wf(), enumerates(e, m)
+    ensures entries_wf(e)
+{
+    assert forall|i: int| 0 <= i < e.len() implies (#[trigger] e[i]).1 < e.len() by { assert(m.idx(e[i].0) == Some(e[i].1)); }
+    assert forall|i: int, j: int| 0 <= i < j < e.len() implies (#[trigger] e[i]).1 != (#[trigger] e[j]).1 by {
+        assert(m.idx(e[i].0) == Some(e[i].1)); assert(m.idx(e[j].0) == Some(e[j].1));
+    }
+}
+'''
+
 INSERT_PROOF = """        proof {
             assert forall|a: Var| (#[trigger] self.idx(a)) is Some implies (self.idx(a)->Some_0 as int) < self.len_spec() by {
                 if a != v { assert(self.idx(a) == old(self).idx(a)); }
@@ -91,13 +123,69 @@ def build(repo, trace):
         fns.append(va[rsx.line_start(va, i):k])
         trace.items.append((VAR_RS, 'VarMap::' + name))
     trace.items.append((VAR_RS, 'enum Var, struct VarIndex, struct VarMap'))
+    # ---- argument checks (C11: "argument checking before evaluation") and their error types
+    errs = []
+    for kind, name in (('struct', 'BadVarSlice'), ('struct', 'MismatchedSlices'), ('enum', 'BulkArgError'), ('enum', 'TracingArgError')):
+        it = rsx.get_item(va, r'^%s %s\b' % (kind, name), 0, '%s %s' % (kind, name))
+        it = re.sub(r'^\s*#\[error\((?:[^()]|\([^()]*\))*\)\]\n', '', it, flags=re.M | re.S)
+        it = re.sub(r'#\[error\(.*?\)\]\n', '', it, flags=re.S)
+        it = re.sub(r'#\[derive\([^\]]*\)\]\n', '', it).replace('#[from] ', '')
+        it = it.replace('%s %s' % (kind, name), 'pub %s %s' % (kind, name))
+        if kind == 'struct':
+            it = re.sub(r'^    (\w+):', r'    pub \1:', it, flags=re.M)
+        errs.append(it)
+    trace.fire('R-derive-from')
+    cf = []
+    for name in ('check_tracing_arguments', 'check_bulk_arguments'):
+        i, j, k = rsx.find_fn(va, name, a, b)
+        cf.append(va[rsx.line_start(va, i):k])
+        trace.items.append((VAR_RS, 'VarMap::' + name))
+    ctr, cbk = cf
+    # R-deref: the generic `V: Deref<Target = [T]>` is instantiated with Vec<T>
+    old_s = 'fn check_bulk_arguments<T, V: std::ops::Deref<Target = [T]>>('
+    if cbk.count(old_s) != 1 or cbk.count('vars: &[V],') != 1:
+        raise ExtractError('R-deref: VarMap::check_bulk_arguments signature changed')
+    cbk = cbk.replace(old_s, 'fn check_bulk_arguments<T>(').replace('vars: &[V],', 'vars: &[Vec<T>],')
+    trace.fire('R-deref')
+    # R-let: the closure of `vars.first().map(|v| v.len())` gets its type and postcondition
+    old_l = 'vars.first().map(|v| v.len())'
+    if cbk.count(old_l) != 1:
+        raise ExtractError('R-let: first().map closure of check_bulk_arguments changed')
+    cbk = cbk.replace(old_l, 'vars.first().map(|v: &Vec<T>| -> (r: usize) ensures r == v@.len() { v.len() })')
+    trace.fire('R-let')
+    # R-find: `S.iter().enumerate().find(|(_i, v)| P(v))` -> a loop that stops at the first index whose element satisfies P
+    m = re.search(r'if let Some\(\((\w+), (\w+)\)\) =\s*(\w+)\.iter\(\)\.enumerate\(\)\.find\(\|\(_\w+, (\w+)\)\| ([^\n]+?)\)\s*\{', cbk)
+    if not m:
+        raise ExtractError('R-find: search of check_bulk_arguments changed')
+    seqv, elem, pred = m.group(3), m.group(4), m.group(5)
+    pred_i = re.sub(r'\b%s\b' % elem, '%s[i_]' % seqv, pred)
+    pred_spec = re.sub(r'\b%s\.len\(\)' % elem, '%s@[k]@.len()' % seqv, pred)
+    if pred_spec == pred:
+        raise ExtractError('R-find: predicate %r does not look at the length of the element' % pred)
+    hit_spec = re.sub(r'\b%s\.len\(\)' % elem, '%s@[found_->Some_0.0 as int]@.len()' % seqv, pred)
+    ls = rsx.line_start(cbk, m.start())
+    ind = ' ' * (m.start() - ls)
+    loop = ('// R-find\n' + ind + 'let mut found_: Option<(usize, &Vec<T>)> = None;\n' + ind + 'let mut i_: usize = 0;\n' + ind + 'while i_ < %s.len() && found_.is_none()\n' % seqv
+            + ind + '    invariant 0 <= i_ <= %s@.len(),\n' % seqv
+            + ind + '        found_ is None ==> forall|k: int| #![trigger %s@[k]] 0 <= k < i_ ==> !(%s),\n' % (seqv, pred_spec)
+            + ind + '        found_ is Some ==> found_->Some_0.0 < %s@.len() && %s && *found_->Some_0.1 == %s@[found_->Some_0.0 as int],\n' % (seqv, hit_spec, seqv)
+            + ind + '    decreases %s@.len() - i_\n' % seqv
+            + ind + '{\n' + ind + '    if %s { found_ = Some((i_, &%s[i_])); }\n' % (pred_i, seqv) + ind + '    i_ += 1;\n' + ind + '}\n'
+            + ind + 'if let Some((%s, %s)) = found_ {' % (m.group(1), m.group(2)))
+    cbk = cbk[:m.start()] + loop + cbk[m.end():]
+    trace.fire('R-find')
     trace.drop('VarMap::{new (derive Default), iter (chained iterators), check_*_arguments (units vm / bounded total), Index impl}; Serialize/Deserialize derives')
-    text = ('use vstd::prelude::*;\nuse std::collections::HashMap;\nverus! {\n' + vi + '\n\n' + var + '\n\n' + st + '\n\nimpl VarMap {\n' + SPEC_FNS + '\n' + '\n\n'.join(fns) + '\n}\n'
+    text = ('use vstd::prelude::*;\nuse vstd::std_specs::convert::*;\nuse std::collections::HashMap;\nverus! {\n' + vi + '\n\n' + var + '\n\n' + st + '\n\n' + '\n\n'.join(errs) + '\n\nimpl VarMap {\n' + SPEC_FNS + '\n' + '\n\n'.join(fns) + '\n\n' + ctr + '\n\n' + cbk + '\n}\n'
             + '\n} // verus!\n// outside verus!: the derived Hash of the key type (no run-time meaning here)\nimpl std::hash::Hash for VarIndex { fn hash<H: std::hash::Hasher>(&self, _h: &mut H) {} }\nfn main() {}\n')
     inj = Injector(text, trace)
     for q, (ret, t) in SPECS.items():
         inj.spec(q, ret, t)
         inj.proof(q, '$START', '        broadcast use vstd::std_specs::hash::group_hash_axioms;')
     inj.proof('VarMap::insert', '$END', INSERT_PROOF)
+    inj.spec('VarMap::check_tracing_arguments', 'r: Result<(), TracingArgError>', '\n        requires self.len_spec() <= usize::MAX, %s,\n        ensures r is Ok <==> vars@.len() >= self.len_spec()\n' % KEY)
+    inj.spec('VarMap::check_bulk_arguments', 'r: Result<(), BulkArgError>', '\n        requires self.len_spec() <= usize::MAX, %s,\n        // enough slices (extra ones are fine) and all of one length\n        ensures r is Ok <==> (vars@.len() >= self.len_spec() && uniform(vars@))\n' % KEY)
+    inj.append_items(LINK)
     obls = [Obligation('varmap::VarMap::' + f, 'varmap', 'VarMap::' + f, props=PROPS) for f in ('len', 'is_empty', 'get', 'insert')]
+    obls += [Obligation('varmap::VarMap::' + f, 'varmap', 'VarMap::' + f, props=['C11', 'C14']) for f in ('check_tracing_arguments', 'check_bulk_arguments')]
+    obls.append(Obligation('varmap::lemma_entries_wf', 'varmap', 'lemma_entries_wf', props=PROPS, kind='lemma'))
     return {'texts': {'base': inj.s}, 'obligations': obls, 'canary_fns': ['VarMap::insert', 'VarMap::get']}
